@@ -12,8 +12,14 @@ A, B = 20000, 60
 EXPONENT_LIMIT = 2.2
 
 
-def limit(s):
-    return A + B * s * s
+LIN = 2500      # steps per input byte allowed to the byte parsers (measured: BoC ~ 90, TL ~ 40 per byte)
+
+
+def limit(s, linear=False):
+    """step budget for input size s.  The byte parsers (BoC, TL: 'bounded by the length of the input') additionally get a linear cap, so that on
+    a long input a count-driven loop is cut after LIN*s steps instead of B*s^2 (which a run would have to wait for)."""
+    q = A + B * s * s
+    return min(q, A + LIN * s) if linear else q
 
 
 def dag_size(root):
@@ -29,6 +35,7 @@ class Steps:
         self.R = R
         self.sc = mon.StepCounter()
         self.table = {}          # family/op -> [(size, steps)]
+        self.aborts = {}
 
     def __enter__(self):
         self.sc.start()
@@ -40,7 +47,11 @@ class Steps:
     def run(self, family, op, s, f, witness, expect='any'):
         """measure f under the budget limit(s); record; violation if the budget is exhausted"""
         R = self.R
-        lim = limit(s)
+        lim = limit(s, linear=family.startswith(('boc-', 'tl-')))
+        if self.aborts.get(family, 0) >= 3:
+            # the family already showed unbounded work three times (violations recorded): do not spend the budget again on every further case
+            R.count('skipped_after_repeated_budget_aborts')
+            return None
         steps, out = self.sc.measure(f, lim)
         R.counters['oracle_evaluations'] += 1
         R.count('measured_calls')
@@ -49,6 +60,7 @@ class Steps:
         self.table.setdefault(f'{family}/{op}', []).append((s, steps))
         if out[0] == 'budget':
             R.count('budget_aborts')
+            self.aborts[family] = self.aborts.get(family, 0) + 1
             R.violation(f'unbounded-{op}-{family}', f'{op} on {family} (size {s}) exceeded {lim} logical steps (A + B*s^2): work is not bounded by the input size',
                         dict(witness, size=s, limit=lim))
             return None
@@ -396,7 +408,7 @@ def run(R):
     rng = R.rng
     quick = R.tier == 'quick'
     R.rule = (f'every measured call runs under a sys.monitoring LINE-event counter restricted to repository code and is cut (violation) when it exceeds '
-              f'{A} + {B}*s^2 logical steps, s = distinct cells + references for DAG operations (build/hash, order, to_boc x options, from_boc, copy ...), input bytes '
+              f'{A} + {B}*s^2 logical steps (byte parsers additionally {A} + {LIN}*s), s = distinct cells + references for DAG operations (build/hash, order, to_boc x options, from_boc, copy ...), input bytes '
               f'for the BoC and TL parsers, unfolded cells for dictionary parsers; additionally the fitted growth exponent per (family, operation) must be <= '
               f'{EXPONENT_LIMIT}. Families: chains, random DAGs, wide trees, 2- and 4-way ladders (exponential path count), diamonds, k-ary trees; BoC headers with every '
               'count/size field rewritten and headers assembled as the product of flag/width/count values (incl. zero widths and huge counts); TL object lists nested inside object lists; TL vectors with rewritten counts, nested bytes-in-bytes, object lists in bytes, rewritten bytes lengths, random bytes '
